@@ -690,7 +690,7 @@ func replayTopic(tc tCase, dir string) *tObs {
 			obs.Incon = "restart drain: " + err.Error()
 			return obs
 		}
-		collectDrains(cons, obs.Back)
+		collectDrains(nd2, cons, obs.Back)
 		closeDrains(cons)
 		return obs
 	}
@@ -729,7 +729,7 @@ func replayTopic(tc tCase, dir string) *tObs {
 	defer closeDrains(cons)
 	if obs.Paused {
 		obs.PausedPhase = map[string][]string{}
-		collectDrains(cons, obs.PausedPhase)
+		collectDrains(nd, cons, obs.PausedPhase)
 		for c, b := range obs.PausedPhase {
 			obs.Final[c] = append(obs.Final[c], b...)
 		}
@@ -738,7 +738,7 @@ func replayTopic(tc tCase, dir string) *tObs {
 			return obs
 		}
 	}
-	collectDrains(cons, obs.Final)
+	collectDrains(nd, cons, obs.Final)
 	return obs
 }
 
@@ -786,15 +786,36 @@ func openDrains(nd *Node, chans []string) ([]*drainCon, error) {
 	return cons, nil
 }
 
-// collectDrains reads every consumer until all of them have been idle for a while
-func collectDrains(cons []*drainCon, into map[string][]string) {
+// collectDrains reads every consumer until all of them have been idle for a while AND the daemon reports nothing
+// queued or in flight on their channels (a loaded machine may take its time to hand a message over)
+func collectDrains(nd *Node, cons []*drainCon, into map[string][]string) {
 	for _, d := range cons {
 		if _, ok := into[d.ch]; !ok {
 			into[d.ch] = []string{}
 		}
 	}
+	pending := func() bool {
+		st, _, err := nd.stats("")
+		if err != nil {
+			return false
+		}
+		for _, ts := range st.Topics {
+			if ts.Name != "t" {
+				continue
+			}
+			for _, cs := range ts.Channels {
+				for _, d := range cons {
+					if d.ch == cs.Name && (cs.Depth > 0 || cs.InFlightCount > 0) {
+						return true
+					}
+				}
+			}
+		}
+		return false
+	}
+	deadline := time.Now().Add(8 * time.Second)
 	idle := 0
-	for idle < 8 {
+	for idle < 8 || (time.Now().Before(deadline) && pending()) {
 		got := false
 		for _, d := range cons {
 			f, ok := d.cn.next(20 * time.Millisecond)
